@@ -528,6 +528,59 @@ func sameAttributes(c *core.Case, path string, got, ref []byte) bool {
 	return true
 }
 
+// firstStart returns the first start element of the document b as a decoder
+// yields it.
+func firstStart(b []byte) (xml.StartElement, error) {
+	d := xml.NewDecoder(bytes.NewReader(b))
+	for {
+		tok, err := d.Token()
+		if err != nil {
+			return xml.StartElement{}, err
+		}
+		if se, ok := tok.(xml.StartElement); ok {
+			return se.Copy(), nil
+		}
+	}
+}
+
+// crossDecode is law D: what one encoding path wrote is read by the other
+// decoder as well.  Every path's output was decoded with xml.Unmarshal; here
+// its start element is parsed with New{IQ,Message,Presence} (what the session,
+// the multiplexer and a peer's library look at) and must give the original
+// value too, and the language must be the attribute xml:lang, not an
+// unqualified or otherwise qualified "lang".
+func crossDecode(c *core.Case, s stz, typ, path string, b []byte, orig core5, v Val) {
+	se, err := firstStart(b)
+	if err != nil {
+		return
+	}
+	for _, a := range se.Attr {
+		if a.Name.Local == "lang" && a.Name.Space != nsXML {
+			c.Violate("codec:D:"+typ+":"+path+":lang-attribute-namespace", "the %s output carries the language as attribute {%s}lang, not xml:lang\n%q", path, a.Name.Space, b)
+			return
+		}
+	}
+	var d core5
+	var derr error
+	if c.Guard("New"+typ, func() { d, derr = s.parseStart(se) }) {
+		return
+	}
+	c.Count("cross_decoded_outputs", 1)
+	if v.Lang != "" {
+		c.Count("cross_decoded_outputs_with_language", 1)
+	}
+	if derr != nil {
+		c.Violate("codec:D:"+typ+":"+path+":start-unparsable", "New%s does not parse the start element of the %s output: %v\n%q", typ, path, derr, b)
+		return
+	}
+	if v.Hostile {
+		return
+	}
+	if f := diffCore(d, orig, false); f != "" {
+		c.Violate("codec:D:"+typ+":"+path+":"+f, "New%s on the start element of the %s output differs from the value in %s: got %+v, want %+v\n%q", typ, path, f, d, orig, b)
+	}
+}
+
 // wellFormed is law W: b parses strictly into exactly one element.
 func wellFormed(c *core.Case, typ, path string, b []byte, err error, rootLocal string) *xmltree.Node {
 	if err != nil {
@@ -658,6 +711,7 @@ func checkStanza(c *core.Case, v Val) {
 			continue
 		}
 		c.Count("decoded_outputs", 1)
+		crossDecode(c, s, typ, p.name, b, orig, v)
 		generic := strings.HasPrefix(p.name, "marshal.")
 		keyTyp := typ
 		if generic {
@@ -706,6 +760,30 @@ func checkStanza(c *core.Case, v Val) {
 			c.Violate("codec:start:"+typ+":error", "New%s(v.StartElement()) fails: %v (start %s)", typ, berr, tokStr(se))
 		} else if f := diffCore(back, want, true); f != "" {
 			c.Violate("codec:start:"+typ+":"+f, "New%s(v.StartElement()) differs from v in %s: got %+v, want %+v (start %s)", typ, f, back, want, tokStr(se))
+		}
+		// namespace-qualified attributes named like the stanza attributes are not
+		// the stanza's id, type, to, from (or xml:lang)
+		if berr == nil {
+			q := func(space, local, val string) xml.Attr {
+				return xml.Attr{Name: xml.Name{Space: space, Local: local}, Value: val}
+			}
+			own := se.Name.Space
+			if own == "" {
+				own = "jabber:client"
+			}
+			seq := se.Copy()
+			seq.Attr = append([]xml.Attr{q("urn:verif:q", "type", "error"), q(own, "id", "qualified"), q("urn:verif:q", "lang", "qq")}, seq.Attr...)
+			seq.Attr = append(seq.Attr, q("urn:verif:q", "to", "q@qualified.example/to"), q(own, "from", "q@qualified.example/from"), q(own, "type", "unavailable"), q("urn:verif:q", "id", "qualified2"))
+			var got core5
+			var qerr error
+			if !c.Guard("New"+typ, func() { got, qerr = s.parseStart(seq) }) {
+				c.Count("qualified_attribute_checks", 1)
+				if qerr != nil {
+					c.Violate("codec:start:"+typ+":qualified-attribute:error", "New%s fails on a start element that also carries qualified attributes: %v (%s)", typ, qerr, tokStr(seq))
+				} else if f := diffCore(got, back, true); f != "" {
+					c.Violate("codec:start:"+typ+":qualified-attribute:"+f, "New%s takes a namespace-qualified attribute for the stanza's %s: got %+v, want %+v (%s)", typ, f, got, back, tokStr(seq))
+				}
+			}
 		}
 		// and the other way round on the canonical start element
 		var se2 xml.StartElement
@@ -818,6 +896,9 @@ func checkStanza(c *core.Case, v Val) {
 		!c.Guard("Wrap(composite)", func() { tb, terr = encodeTokens(s.wrap(reader(ap.tokens()))) }) {
 		c.Count("composite_checks", 1)
 		okM := wellFormed(c, typ, "xml.Marshal(composite)", mb, merr, v.Kind) != nil
+		if okM {
+			crossDecode(c, s, typ, "xml.Marshal(composite)", mb, orig, v)
+		}
 		okT := wellFormed(c, typ, "Wrap(composite)", tb, terr, v.Kind) != nil
 		if okM && okT {
 			var mc, tc core5
@@ -1161,6 +1242,13 @@ func run(c *core.Case) {
 		c.Count("addresses_discarded_unstable_or_invalid", discarded)
 	}
 	check(c, v)
+	if c.Rand.Intn(40) == 0 {
+		vals := genConcurrent(c.Rand, &discarded)
+		if !c.Violated() {
+			checkConcurrentDecode(c, vals)
+		}
+		return
+	}
 	switch v.Kind {
 	case "iq", "message", "presence":
 		if c.Rand.Intn(2) == 0 {
@@ -1181,6 +1269,8 @@ func Prop() *core.Prop {
 		"interleaved_three_readers", "interleaved_partial_then_build", "interleaved_encodexml_nested",
 		"interleaved_values_beyond_4k", "interleaved_outputs_agree",
 		"attribute_sets_compared", "composite_attribute_sets_agree_two_attr_namespaces",
+		"cross_decoded_outputs", "cross_decoded_outputs_with_language", "qualified_attribute_checks", "snapshot_decoded_copy_kept",
+		"concurrent_decode_scenarios", "concurrent_decodes",
 		"snapshot_checks", "snapshot_text_map_mutated", "snapshot_reused_decode_target", "snapshot_stanza_helpers", "snapshot_stream_error"}
 	for _, k := range []string{"iq", "message", "presence"} {
 		for _, n := range []string{"none", "client", "server"} {
@@ -1190,7 +1280,8 @@ func Prop() *core.Prop {
 	return &core.Prop{
 		ID:    "C13",
 		Level: core.Exploration,
-		Rule:  "values are PRNG-drawn IQ/Message/Presence (every defined type constant, XMLName namespace none/client/server, ids and language tags from pools of empty, ASCII, XML-special, non-ASCII and control-adjacent text, addresses that survive Parse(String()) incl. resourceparts with <>&'\"), stanza.Error (every type x defined condition, by, 0-3 texts in distinct languages incl. empty data, optional application condition) and stream.Error (every defined condition, see-other-host content, 0-3 texts with repeated languages, optional application error). Each value is encoded by xml.Marshal, TokenReader/WriteXML/Wrap, internal/marshal.TokenReader and internal/marshal.EncodeXML; each output must parse strictly (W), decode to the same value as xml.Marshal's (A) and to a value equivalent to the original (R); Wrap/Result/Error are checked on the token level (frame, start element, payload tokens unchanged, to/from swapped), UnmarshalError/UnmarshalIQError read the Error helpers back, New*(v.StartElement()) must equal v. The internal/marshal outputs must also carry exactly the attributes of the xml.Marshal output after parsing (the composite payload has a plain attribute followed by one in a namespace of its own, another plain one, one in a second attribute namespace, and children whose namespaced attribute comes first), and no namespace declaration may survive as an ordinary attribute. Snapshot law (S): for every TokenReader/Wrap/Error constructor of the core types the reader is built, then everything the caller can still reach is changed (entries of a stanza error's Text map changed, emptied, deleted and added; elements of a stream error's Text slice; the fields of the variable; or the variable is reused as a decode target, which fills its Text map in place), then the reader is consumed: its tokens must equal those of a reader built from a deep copy and consumed at once. For half of the stanza values the interleaved-readers law (I) is also run on the internal/marshal paths: the marshal.TokenReader readers of two or three different values (bare stanzas and stanzas with payload, a third padded beyond 4 KiB) are built first and consumed token by token in PRNG order, or one is partly consumed, another built, then both finished, or marshal.EncodeXML of one value is interrupted after its k-th token by a complete EncodeXML of another into a second encoder; every output must still decode to what xml.Marshal of its own value decodes to. 5% of values carry characters XML cannot represent and are judged for W and A only. distinct = (kind, namespace, type, class of every text field, payload count).",
+		Race:  true,
+		Rule:  "values are PRNG-drawn IQ/Message/Presence (every defined type constant, XMLName namespace none/client/server, ids and language tags from pools of empty, ASCII, XML-special, non-ASCII and control-adjacent text, addresses that survive Parse(String()) incl. resourceparts with <>&'\"), stanza.Error (every type x defined condition, by, 0-3 texts in distinct languages incl. empty data, optional application condition) and stream.Error (every defined condition, see-other-host content, 0-3 texts with repeated languages, optional application error). Each value is encoded by xml.Marshal, TokenReader/WriteXML/Wrap, internal/marshal.TokenReader and internal/marshal.EncodeXML; each output must parse strictly (W), decode to the same value as xml.Marshal's (A) and to a value equivalent to the original (R); Wrap/Result/Error are checked on the token level (frame, start element, payload tokens unchanged, to/from swapped), UnmarshalError/UnmarshalIQError read the Error helpers back, New*(v.StartElement()) must equal v. The internal/marshal outputs must also carry exactly the attributes of the xml.Marshal output after parsing (the composite payload has a plain attribute followed by one in a namespace of its own, another plain one, one in a second attribute namespace, and children whose namespaced attribute comes first), and no namespace declaration may survive as an ordinary attribute. Law D: the start element of every path's output is also parsed with New{IQ,Message,Presence} and must give the original value (the language must travel as xml:lang); New* must ignore namespace-qualified attributes named type/id/to/from/lang placed before and after the real ones. One case in 40 decodes four stanzas with different addresses on four goroutines at once (xml.Unmarshal and New*), every result compared with the sequential reference, under the race detector. Snapshot law (S): for every TokenReader/Wrap/Error constructor of the core types the reader is built, then everything the caller can still reach is changed (entries of a stanza error's Text map changed, emptied, deleted and added; elements of a stream error's Text slice; the fields of the variable; or the variable is reused as a decode target, which fills its Text map in place), then the reader is consumed: its tokens must equal those of a reader built from a deep copy and consumed at once. For half of the stanza values the interleaved-readers law (I) is also run on the internal/marshal paths: the marshal.TokenReader readers of two or three different values (bare stanzas and stanzas with payload, a third padded beyond 4 KiB) are built first and consumed token by token in PRNG order, or one is partly consumed, another built, then both finished, or marshal.EncodeXML of one value is interrupted after its k-th token by a complete EncodeXML of another into a second encoder; every output must still decode to what xml.Marshal of its own value decodes to. 5% of values carry characters XML cannot represent and are judged for W and A only. distinct = (kind, namespace, type, class of every text field, payload count).",
 		Assumptions: []string{
 			"equivalence ignores XMLName as filled in by decoding, nil versus empty text collections, and stanza-error text entries with empty data (documented as omitted by the encoder)",
 			"encoding/xml ignores the value of an XMLName field when the struct tag names the element, so xml.Marshal of a stanza cannot carry XMLName.Space; this is counted (xmlname_space_not_carried_by_struct_tags), not judged; the namespace is judged on the Wrap/StartElement path",
@@ -1200,9 +1291,9 @@ func Prop() *core.Prop {
 		},
 		Cases: func(tier string) int {
 			if tier == "thorough" {
-				return 4000000
+				return 600000
 			}
-			return 50000
+			return 12000
 		},
 		Run:       run,
 		Require:   req,
